@@ -123,6 +123,18 @@ def c17_consts():
         _need(len(ids) == 1 and isinstance(ids[0], ast.Name) and isinstance(content.args[0], ast.Name)
               and ids[0].id == content.args[0].id, "generate_next_step: the validated id must be the started id")
     r["validate_wrapped"] = wrapped
+    # the cap on the number of lines the loop considers: `result.split("\n")[:MAX_MULTI_STEP_FLOW_LINES]` (0 = no cap)
+    cap = 0
+    src0 = ast.unparse(fn)
+    if "result.split('\\n')[:MAX_MULTI_STEP_FLOW_LINES]" in src0:
+        vals = [n.value.value for n in gen.body if isinstance(n, ast.Assign) and len(n.targets) == 1
+                and isinstance(n.targets[0], ast.Name) and n.targets[0].id == "MAX_MULTI_STEP_FLOW_LINES"
+                and isinstance(n.value, ast.Constant) and isinstance(n.value.value, int)]
+        _need(len(vals) == 1 and 0 < vals[0] <= 5000, "MAX_MULTI_STEP_FLOW_LINES: one positive int constant expected")
+        cap = vals[0]
+    else:
+        _need("lines = result.split('\\n')\n" in src0 + "\n", "generate_next_step: `lines = result.split('\\n')` expected when there is no cap")
+    r["max_multi_step_lines"] = cap
     # the loop: `lines = lines[:-1]` and the `len(lines) == 1` exit
     src = ast.unparse(fn)
     _need("lines = lines[:-1]" in src and "len(lines) == 1" in src, "generate_next_step: shrink loop shape")
@@ -238,6 +250,7 @@ def emit(r):
         f"Definition c_internal_error_intent : string := {cs(r['internal_error_intent'])}.",
         f"Definition strip_quotes_guarded : bool := {coq_bool(r['strip_quotes_guarded'])}.",
         f"Definition validate_wrapped : bool := {coq_bool(r['validate_wrapped'])}.",
+        f"Definition c_max_multi_step_lines : nat := {r['max_multi_step_lines']}.",
         f"Definition start_flow_contained : bool := {coq_bool(r['start_flow_contained'])}.",
         f"Definition render_only_predefined : bool := {coq_bool(r['render_only_predefined'])}.",
         "Definition value_evaluators : list string := [" + "; ".join(coq_str(e) for e in r["value_evaluators"]) + "].",
